@@ -173,7 +173,9 @@ class ModelRegistry:
         replaces = []
         replaces_ids = set()
         for group in groups:
-            model_meta = self._merge(generator, *group)
+            # Merge models in their registration order: iteration order of a set of models depends on the hash seed
+            ordered_group = [model for model in tuple(self.models) if model in group]
+            model_meta = self._merge(generator, *ordered_group)
             generator.optimize_type(model_meta)
             replaces_ids.add(model_meta.index)
             replaces.append((model_meta, group))
